@@ -1,7 +1,7 @@
 #!/bin/bash
 # tools/confirm_mutant.sh <ID> <k>: in the sub-agent's scratch worktree /tmp/wt/<ID>: apply m<k>.diff, run the existing tests of the
 # crate, run the demo (must FAIL), revert, run the demo again (must PASS).  Prints a one-line verdict.
-ID=$1; K=$2; W=/tmp/wt/$ID; M=$W/mutants
+ID=$1; K=$2; W=${WT_ROOT:-/tmp/wt}/$ID; M=$W/mutants
 export CARGO_TARGET_DIR=$W/target CARGO_NET_OFFLINE=true
 cd $W || exit 2
 git checkout -q -- . 2>/dev/null
